@@ -91,11 +91,64 @@ def check_forest(item):
     if worst > 1e-9:
         o = max(dist, key=lambda k: abs(dist[k] * count - 1.0))
         problems.append(({"sub": "uniform", "has_outliers": has_out}, "order %s has probability %.12g, uniform is %.12g" % (o, dist[o], 1.0 / count)))
+    if leaves != len(dist):
+        problems.append(({"sub": "harness_assumption_paths_are_orders", "has_outliers": has_out}, "%d complete paths but %d distinct orders" % (leaves, len(dist))))
     lp = float(RootPermutationDistribution.log_pdf(tree))
     if not (abs(lp + math.log(count)) <= 1e-9 * max(1.0, abs(lp))):
         problems.append(({"sub": "log_pdf", "has_outliers": has_out, "n_outliers_ge2": len(f.outliers) >= 2},
                          "log_pdf=%.12g but -log(#orders=%d)=%.12g" % (lp, count, -math.log(count))))
     return {"leaves": leaves, "orders": count, "problems": problems, "n": len(pts), "nout": len(f.outliers)}
+
+
+def check_big(item):
+    """Trees too large to traverse: log_pdf against the closed-form count, and for seeded sampled paths the ancestor constraint
+    and the path probability, which must be exactly 1/count (every complete path of the sampler yields a distinct order - the
+    traversals of the small trees verify that leaves == orders)."""
+    fj, seed = item
+    f = forest_unjson(fj)
+    from phyclone.smc.utils import RootPermutationDistribution
+    from sim.rng import SimGenerator
+
+    pts = sorted(set().union(*f.own) | set(f.outliers))
+    r = random.Random(seed)
+    data = bridge.make_data(r, max(pts) + 1, samples=1, grid=3, style="flat")
+    tree = bridge.build_tree(f, data)
+    count = models.count_linear_extensions(f)
+    logc = math.log(count)
+    problems = []
+    has_out = len(f.outliers) > 0
+    lp = float(RootPermutationDistribution.log_pdf(tree))
+    if not (abs(lp + logc) <= 1e-9 * max(1.0, logc)):
+        problems.append(({"sub": "log_pdf", "has_outliers": has_out, "size": "large"}, "log_pdf=%.12g but -log(#orders)=%.12g for a tree of %d data points" % (lp, -logc, len(pts))))
+    ch, roots = models.children_of(f)
+    node_of = {d: i for i, o in enumerate(f.own) for d in o}
+    anc = {}
+    for i in range(len(f.own)):
+        a = []
+        j = f.parent[i]
+        while j >= 0:
+            a.append(j)
+            j = f.parent[j]
+        anc[i] = a
+    for k in range(12):
+        g = SimGenerator(mode="choose", tail_seed=runner.hash64(seed, k))
+        order = [int(d.idx) for d in RootPermutationDistribution.sample(tree, g)]
+        if sorted(order) != pts:
+            problems.append(({"sub": "complete", "has_outliers": has_out, "size": "large"}, "sampled order is not a permutation of the data"))
+            break
+        pos = {d: x for x, d in enumerate(order)}
+        bad = False
+        for d, i in node_of.items():
+            for a in anc[i]:
+                if any(pos[e] < pos[d] for e in f.own[a]):
+                    bad = True
+        if bad:
+            problems.append(({"sub": "constraint", "has_outliers": has_out, "size": "large"}, "sampled order violates the ancestor constraint"))
+            break
+        if not (abs(g.log_prob + logc) <= 1e-9 * max(1.0, logc)):
+            problems.append(({"sub": "uniform", "has_outliers": has_out, "size": "large"}, "a sampled order has probability exp(%.12g), uniform is exp(%.12g)" % (g.log_prob, -logc)))
+            break
+    return {"problems": problems, "n": len(pts)}
 
 
 def random_forest(r, n):
@@ -175,6 +228,14 @@ def run(ctx):
             fmin = shrink(f0, pred)
             ctx.violation(key, detail + " on " + models.canon_str(models.canon(fmin)),
                           {"forest": forest_json(fmin), "build_seed": bs, "key": key})
+    r2 = random.Random(ctx.sub("big"))
+    big = []
+    for i in range(60 if quick else 1500):
+        big.append((forest_json(random_forest(r2, r2.choice([9, 12, 13, 16, 20, 30]))), ctx.sub(("big", i))))
+    for (fj, sd), out in zip(big, runner.pmap(check_big, big, timeout=1200)):
+        for key, detail in out["problems"]:
+            ctx.violation(key, detail, {"forest": fj, "build_seed": sd, "key": key, "big": True})
+    ctx.cov["large_trees_checked_by_sampled_paths_and_closed_form"] = len(big)
     ctx.cov["evaluations"] = len(items)
     ctx.cov["distinct_nontrivial"] = len(distinct)
     ctx.cov["exhaustive_per_configuration"] = True
@@ -195,7 +256,7 @@ def run(ctx):
 
 def replay(ctx, obj):
     bridge.warm_up()
-    out = check_forest((obj["forest"], obj["build_seed"]))
+    out = check_big((obj["forest"], obj["build_seed"])) if obj.get("big") else check_forest((obj["forest"], obj["build_seed"]))
     for key, detail in out["problems"]:
         if key == obj["key"]:
             ctx.violation(key, detail, obj)
